@@ -2,8 +2,8 @@ SPECIFICATION Spec
 CONSTANTS
   ReplyDecodeFix = TRUE
   Export = ""
-  Kinds = {"call", "push"}
+  Kinds = {"call", "push", "badtype"}
   Routes = {"reg", "unreg", "unknown"}
   Houts = {"ok", "status", "panic", "unpackable"}
-INVARIANTS AtMostOneHandler OneReply HookOnce VetoStops CallerVetoStops OKIff Scoped
+INVARIANTS BadTypeDisconnects AtMostOneHandler OneReply HookOnce VetoStops CallerVetoStops OKIff Scoped
 CHECK_DEADLOCK FALSE
